@@ -228,6 +228,19 @@ def gen_plan(r, index, tier):
             cut = r.choice([total // 2, total // 2 + 1, 2 * depth, total - 3])
             steps = [['deliver', 0, max(1, min(total - 1, cut))], ['poll', 0], ['poll', 0], ['drain']]
             tasks.append({'t': 'deep', 'codec': 'ber', 'depth': depth, 'indef': indef, 'steps': steps})
+    # the same through the one-shot entry point, nested beyond what the interpreter's recursion limit lets the
+    # decoder descend into (the call fails, with or without its tail): whatever the entry point does about that
+    # must not outlive the call
+    if r.random() < 0.06:
+        for _ in range(r.choice([1, 2])):
+            depth = r.choice([600, 900, 1500])
+            b = deep_bytes(depth, r.random() < 0.5)
+            if r.random() < 0.6:
+                # cut after so many headers that the descent ends either far below or far beyond the recursion
+                # limit: where exactly a call in between overflows depends on how deep its caller already is
+                b = b[:_header_offset(b, r.choice([60, 120, 500, 550]))]
+            tasks.insert(r.randrange(len(tasks) + 1),
+                         {'t': 'decode', 'codec': r.choice(['ber', 'cer', 'der']), 'v': 0, 'bad_hex': b.hex(), 'nospec': True})
     # calls on colliding neighbour types take part in the same history / interleaving
     for k, nb in enumerate(neighbours):
         for _ in range(r.choice([1, 1, 2])):
@@ -398,6 +411,9 @@ class OneShot(object):
                 data = t.get('bad_hex') or self.encs.get(_ekey(t, t['v']))
                 if data is None:
                     return ['skip', 'no-encoding']
+                if t.get('nospec'):
+                    v, rest = dec.decode(bytes.fromhex(data))
+                    return ['ok', _deep_summary(v), bytes(rest).hex()]
                 v, rest = dec.decode(bytes.fromhex(data), asn1Spec=self.ctx.schema, **_dec_kw(self.plan, t, self.ctx))
                 self.result_obj = v
                 return ['ok', U.jsonable(U.absval(v)), bytes(rest).hex()]
@@ -547,6 +563,15 @@ def deep_bytes(depth, indef):
     return b
 
 
+def _header_offset(b, n):
+    """Offset just behind the n-th nested header of deep_bytes()."""
+    pos = 0
+    for _ in range(n):
+        lo = b[pos + 1]
+        pos += 2 + ((lo & 0x7f) if (lo & 0x80 and lo != 0x80) else 0)
+    return pos
+
+
 def make_task(ti, task, ctx, encs, plan, trace, inject=False):
     if task['t'] in ('stream', 'deep'):
         return StreamTask(ti, task, ctx, encs, plan, trace, inject=inject)
@@ -666,6 +691,20 @@ def _catalogue_outcomes(only=None):
         except Exception as ex:
             out.append(['err', type(ex).__name__])
     return out
+
+
+def _interp_moved(where, trace, ctr):
+    """Interpreter-wide configuration (recursion limit, int-to-text limit, switch interval, warning filters)
+    after the calls must be what it was before them."""
+    want = _PRISTINE[0].interp
+    got = globalstate.interp_config()
+    if got == want:
+        return None
+    globalstate.restore_interp(want)
+    diff = [[a[0], b[1], a[1]] for a, b in zip(got, want) if a != b]
+    v = W.Violation('interpreter-configuration-changed', where=where, changed=diff)
+    return common.violation_result(v, ['interpreter-configuration-changed', where, diff[0][0], None],
+                                   trace, ctr, None, None, {'kind': 'file'}, None)
 
 
 def _gs_moved(plan, labels, where, trace, ctr):
@@ -845,6 +884,9 @@ def execute(plan):
         encs, iso = isolated_outcomes(plan)
     else:
         encs, iso = isolated_outcomes_inproc(plan)
+    bad = _interp_moved('reference-calls', trace, ctr)
+    if bad:
+        return bad
     labels = globalstate.moved(_PRISTINE[0])
     if labels:
         bad = _gs_moved(plan, labels, 'reference-calls', trace, ctr)
@@ -987,6 +1029,9 @@ def execute(plan):
                     debug.scope.pop()
                 except Exception:
                     break
+    bad = _interp_moved('shared-run', trace, ctr)
+    if bad:
+        return bad
     labels = globalstate.moved(_PRISTINE[0])
     if labels:
         bad = _gs_moved(plan, labels, 'shared-run', trace, ctr)
